@@ -80,6 +80,10 @@ class Known:
         return [k for (p, k) in self.known if p == pid]
 
 
+# evidence level per property = MANIFEST level_claimed.category (vf/manifest.py)
+LEVELS = {"C06": "fault_enumeration", "C07": "fault_enumeration", "C13": "fault_enumeration"}
+
+
 class Report:
     """Collects what one check run covered and found; writes the evidence
     file and prints VIOLATION / KNOWN-FINDING lines."""
@@ -87,7 +91,7 @@ class Report:
     def __init__(self, pid, tier, level="model_checking"):
         self.pid = pid
         self.tier = tier
-        self.level = level
+        self.level = LEVELS.get(pid, level)
         self.t0 = time.time()
         self.cov = {"states": 0, "transitions": 0, "traces_validated_against_impl": 0,
                     "samples": [], "evaluations": 0, "distinct_nontrivial": 0,
